@@ -249,6 +249,29 @@ def build_panel(d, explicit_model=True):
     return p
 
 
+def leftovers(rng, p, loads=True, forces=True, aero=True, prob=0.5):
+    """attributes an earlier use of the same object leaves behind and that are no part of the quantity asked for next:
+    buckling reference loads, point forces of a static run, flow parameters of a flutter run.  Returns the list of kinds left."""
+    left = []
+    if rng.random() >= prob:
+        return left
+    if loads and rng.random() < 0.6:
+        p.Nxx, p.Nyy, p.Nxy = load_triple(rng, float(10 ** rng.uniform(0, 5)))
+        left.append('loads')
+    if forces and rng.random() < 0.5:
+        for _ in range(int(rng.integers(1, 4))):
+            f = [float(x) for x in rng.normal(size=3) * 10 ** rng.uniform(0, 4)]
+            p.add_force(float(rng.uniform(0, p.a)), float(rng.uniform(0, p.b)), f[0], f[1], f[2], cte=bool(rng.random() < 0.5))
+        left.append('forces')
+    if aero and rng.random() < 0.4:
+        p.flow = str(rng.choice(['x', 'y']))
+        p.beta = float(10 ** rng.uniform(-2, 4))
+        if rng.random() < 0.5:
+            p.gamma = float(10 ** rng.uniform(-2, 4))
+        left.append('aero')
+    return left
+
+
 def active_dofs(K, tol=0.0):
     """indices whose row AND column are not identically zero"""
     import scipy.sparse as sp
